@@ -204,9 +204,9 @@ class _Tlc:
 
         def one(run):
             tag, cfg, mode = run
-            return tlc.run_tlc(AREA, "MCHttpExc", cfg, workers=per if mode == "check" else 2, tmp=ctx.tmp, timeout=3000,
+            return tlc.run_tlc(AREA, "MCHttpExc", cfg, workers=per if mode == "check" else 1 if mode == "export" else 2, tmp=ctx.tmp, timeout=3000,
                                allow_violation=(mode == "mutant"), extra=["-nowarning"])
-        self.fut = {r[0]: self.ex.submit(one, r) for r in sorted(runs, key=lambda r: r[2] != "check")}
+        self.fut = {r[0]: self.ex.submit(one, r) for r in sorted(runs, key=lambda r: {"export": 0, "check": 1, "mutant": 2}[r[2]])}
         self.done = set()
 
     def collect(self, tags=None):
@@ -227,11 +227,12 @@ class _Tlc:
                 if not r.invariant_violated:
                     raise tlc.MachineryError(f"broken model variant {cfg} satisfies the contract: the clauses are vacuous")
                 continue
-            ctx.states += r.distinct
-            ctx.transitions += r.generated
+            if mode == "check":
+                ctx.states += r.distinct
+                ctx.transitions += r.generated
             ctx.model_runs.append({"spec": f"{AREA}/MCHttpExc", "cfg": cfg, "distinct": r.distinct, "generated": r.generated,
                                    "depth": r.depth, "wall_s": round(r.wall_s, 1),
-                                   "exported": len([v for v in r.printed if isinstance(v, dict) and "op" in v])})
+                                   **({"exported": len([v for v in r.printed if isinstance(v, dict) and "op" in v])} if mode == "export" else {})})
         if len(self.done) == len(self.runs):
             self.ex.shutdown()
         return out
@@ -255,7 +256,7 @@ def _expand_exported(cases):
                 out.append(dict(copy.deepcopy(c), style="positional"))
         elif c["op"] == "redirect" and c["fn"] == "redirect" and c["code"] == 302 and not c["rcls"]:
             out.append(dict(copy.deepcopy(c), dflt=True))
-        elif c["op"] == "redirect" and c["fn"] == "slash" and c["code"] == 308:
+        elif c["op"] == "redirect" and c["fn"] == "slash" and c["code"] == 308 and len(c["env"]["path"]) <= 3:
             out.append(dict(copy.deepcopy(c), dflt=True))
         elif c["op"] == "abort" and c["ab"]["k"] == "default":
             out.append(dict(copy.deepcopy(c), style="aborter"))
@@ -286,22 +287,23 @@ def run(ctx: Ctx):
         "two pre-fix behaviours are kept as broken model variants (orig_retry0, orig_slash)",
     ]
     size = "Q" if q else "T"
-    runs = [("mc_" + f, f"MC{size}_{f}", "check") for f in FAMILIES]
+    runs = [("x_" + f, ("MCX_" if q else "MCXT_") + f, "export") for f in FAMILIES]
+    runs += [("mc_" + f, f"MC{size}_{f}", "check") for f in FAMILIES]
     for m in (QUICK_MUTANTS if q else list(MUTANTS)):
         runs.append(("m_" + m, "MCB_" + m, "mutant"))
     bg = _Tlc(ctx, runs)
 
     # 3. code -> spec, while TLC enumerates the tables
-    cases = X.fixtures() + X.random_cases(ctx.seed, 2400 if q else 60000)
+    cases = X.fixtures() + X.random_cases(ctx.seed, 2000 if q else 60000)
     lines = judge_cases(ctx, cases, "random", extra_lines=X.static_lines(), selftest=True)
     nfix = len(X.fixtures())
     samples = lines[nfix:: max(1, len(lines) // 3)][:3]
 
     # 2. spec -> code
-    res = bg.collect({"mc_" + f for f in FAMILIES})
+    res = bg.collect({"x_" + f for f in FAMILIES})
     cases = []
     for f in FAMILIES:
-        cs = [v for v in res["mc_" + f].printed if isinstance(v, dict) and v.get("op") in ("render", "redirect", "abort")]
+        cs = [v for v in res["x_" + f].printed if isinstance(v, dict) and v.get("op") in ("render", "redirect", "abort")]
         ctx.notes["exported_" + f] = len(cs)
         if len(cs) < (LEAST_EXPORTED[f] if q else 2 * LEAST_EXPORTED[f]):
             raise tlc.MachineryError(f"export {f}: only {len(cs)} cases")
